@@ -870,6 +870,14 @@ def fix4(run):
                   "%s reads max_iterations (audited reader)" % r_,
                   "%s reads max_iterations but is not an audited reader: the budget must only bound the number of passes, never influence a value" % r_)
     run.floor(R, "readers of max_iterations", len(readers), 3)
+    # the nested driver of asm blocks: bounding ITS passes by the user's budget makes the budget part of the trajectory of the outer
+    # iteration (a block that has not settled within N inner passes answers differently from one given N+1), so where a program
+    # has several consistent states the budget selects among them
+    inner = "asm::resolver::eval_asm::resolve_iteratively"
+    g_in = prog.fn(inner)
+    if g_in is not None:
+        run.check(inner not in readers, R, "%s|inner-budget|%s" % (R, inner), g_in.loc(), "the asm block's own pass limit does not depend on the user's budget",
+                  "the passes of an asm block are bounded by the user's iteration budget: the block answers `not settled` after N inner passes and `settled` with N+1, which steers the outer iteration, so the budget can select between two consistent states of a program")
     # assertions only in a last pass
     f = prog.fn("asm::resolver::assert::resolve_assert")
     if f is None:
